@@ -148,7 +148,7 @@ class Harness:
                 else:
                     h.do_adopt(cmd["target"], "payload:" + pid)
             elif op == "execute":
-                h.do_execute(cmd["target"], "payload:" + pid, cmd["how"])
+                h.do_execute(cmd["target"], "payload:" + pid, cmd["how"], cmd.get("slow", 0.0))
             elif op == "new_service":
                 h.do_new_service(cmd["s"], "payload:" + pid)
             elif op == "end":
@@ -471,7 +471,11 @@ class Harness:
             elif o == "block":
                 self.command(op["p"], {"op": "block"})
             elif o == "execute":
-                if op.get("wait", True) is False:
+                if op.get("wait", True) is False and op.get("ctx", "driver").startswith("payload:"):
+                    # the payload is told to execute (slowly) and the script goes on meanwhile
+                    self.command(op["ctx"].split(":", 1)[1], {"op": "execute", "target": op["p"], "how": op["how"], "slow": op.get("slow", 0.0)}, wait=False)
+                    time.sleep(0.05)
+                elif op.get("wait", True) is False:
                     self.helper(lambda: self.do_execute(op["p"], "thread", op["how"], op.get("slow", 0.0)), "bg-executor")
                     time.sleep(0.05)
                 else:
